@@ -62,6 +62,8 @@ async fn watch(
     mut target_actor_output_events: Receiver<TargetActorOutputMessage>,
 ) -> Result<()> {
     loop {
+        #[cfg(zinoma_verif)]
+        crate::verif::emit("root_idle", "", &[]);
         futures::select! {
             _ = termination_events.next().fuse() => break,
             target_actor_output = target_actor_output_events.next().fuse() => {
@@ -83,6 +85,9 @@ async fn watch(
         }
     }
 
+    #[cfg(zinoma_verif)]
+    crate::verif::emit("root_loop_exit", "", &[("signalled", "true".to_string()), ("service_roots", "[]".to_string())]);
+
     Ok(())
 }
 
@@ -101,6 +106,8 @@ async fn execute_once(
     while !(termination_event_received
         || unavailable_root_services.is_empty() && unavailable_root_builds.is_empty())
     {
+        #[cfg(zinoma_verif)]
+        crate::verif::emit("root_idle", "", &[]);
         futures::select! {
             _ = termination_events.next().fuse() => termination_event_received = true,
             target_actor_output = target_actor_output_events.next().fuse() => {
